@@ -1,25 +1,29 @@
 (* POSIX-like file-system crash model used by C11 (definitions only).
 
    What is modelled (the contract the snapshot protocol of nflog.go / silence.go relies on):
-   - an inode holds DURABLE bytes plus the list of VOLATILE writes issued since its last fsync;
+   - an inode holds DURABLE bytes plus the list of VOLATILE writes (offset, bytes) issued since its last fsync;
    - a directory maps names to inode numbers. Directory updates (creat, rename) are atomic, but the code never
      fsyncs the directory, so they stay in an un-synced directory log: a crash keeps a PREFIX of that log and rolls
      back the rest (a rolled-back rename leaves the target name bound to its old inode);
    - fsync(fd) makes that inode's bytes durable (nothing else: not the directory);
-   - a crash keeps, per inode, the durable bytes plus ANY PREFIX of the concatenated volatile bytes; which prefix,
-     and how much of the directory log survives, is the adversary's choice ([choice]);
-   - open(O_CREAT|O_TRUNC) is modelled as binding the name to a fresh empty inode (for an existing name the old inode
-     stays reachable through a rolled-back directory log: "truncation not yet on disk").
+   - a crash keeps, per inode, the durable bytes overwritten by ANY PREFIX of the volatile write sequence (cut inside
+     a write at any byte); which prefix, and how much of the directory log survives, is the adversary's choice;
+   - [Create]: open(O_CREAT|O_TRUNC) or open(O_CREAT|O_EXCL) - the name is bound to a FRESH EMPTY inode (for an
+     existing name the old inode stays reachable through a rolled-back directory log: "truncation not yet on disk");
+   - [OpenExisting]: a writable open WITHOUT O_TRUNC - the existing inode and its content are kept, the write position
+     starts at 0, so a shorter new content leaves the tail of the old one in place (a missing file is created).
    File handles: an op refers to an open file by the path it was opened with (the harness canonicalises the fd
-   numbers of the strace log this way), so writes after a rename of the path still reach the inode. *)
+   numbers of the strace log this way), so writes after a rename of the path still reach the inode. The write
+   position is kept with the inode (one writer per file; O_APPEND, lseek and pwrite are not modelled). *)
 From AM Require Import Base.Prelude.
 
 Notation bytes := (list N) (only parsing).
 
-Record file := mkFile { f_durable : list N; f_volatile : list (list N) }.
+Record file := mkFile { f_durable : list N; f_volatile : list (nat * list N); f_pos : nat }.
 
 Inductive fsop :=
-| Create (n : string)             (* openat(n, O_CREAT|O_TRUNC|O_RDWR): handle n *)
+| Create (n : string)             (* openat(n, O_CREAT|O_TRUNC|...) / O_CREAT|O_EXCL: fresh empty file, handle n *)
+| OpenExisting (n : string)       (* openat(n, writable, no O_TRUNC): keeps the content, handle n *)
 | Write (h : string) (b : list N) (* write(fd of h, b) *)
 | Fsync (h : string)              (* fsync(fd of h) *)
 | Close (h : string)              (* close(fd of h) *)
@@ -53,7 +57,12 @@ Fixpoint handle (o : list (string * nat)) (h : string) : option nat :=
   | (n, i) :: r => if String.eqb n h then Some i else handle r h
   end.
 
-Definition file_bytes (f : file) : list N := f_durable f ++ concat (f_volatile f).
+(* write b at offset off *)
+Definition overwrite (d : list N) (off : nat) (b : list N) : list N :=
+  take off d ++ b ++ drop (off + length b) d.
+Definition apply_writes (d : list N) (ws : list (nat * list N)) : list N :=
+  foldl (fun d w => overwrite d (fst w) (snd w)) d ws.
+Definition file_bytes (f : file) : list N := apply_writes (f_durable f) (f_volatile f).
 
 (* what reading name n returns *)
 Definition content (s : fs) (n : string) : option (list N) :=
@@ -68,19 +77,28 @@ Definition upd_file (s : fs) (i : nat) (g : file -> file) : fs :=
   | None => s
   end.
 
+Definition step_create (s : fs) (n : string) : fs :=
+  let i := length (fs_files s) in
+  mkFs (fs_files s ++ [mkFile [] [] 0]) (fs_ddir s) (fs_log s ++ [DBind n i]) ((n, i) :: fs_open s).
+
 Definition step (s : fs) (o : fsop) : fs :=
   match o with
-  | Create n =>
-      let i := length (fs_files s) in
-      mkFs (fs_files s ++ [mkFile [] []]) (fs_ddir s) (fs_log s ++ [DBind n i]) ((n, i) :: fs_open s)
+  | Create n => step_create s n
+  | OpenExisting n =>
+      match cur_dir s !! n with
+      | Some i =>
+          let s' := upd_file s i (fun f => mkFile (f_durable f) (f_volatile f) 0) in
+          mkFs (fs_files s') (fs_ddir s') (fs_log s') ((n, i) :: fs_open s')
+      | None => step_create s n
+      end
   | Write h b =>
       match handle (fs_open s) h with
-      | Some i => upd_file s i (fun f => mkFile (f_durable f) (f_volatile f ++ [b]))
+      | Some i => upd_file s i (fun f => mkFile (f_durable f) (f_volatile f ++ [(f_pos f, b)]) (f_pos f + length b))
       | None => s
       end
   | Fsync h =>
       match handle (fs_open s) h with
-      | Some i => upd_file s i (fun f => mkFile (file_bytes f) [])
+      | Some i => upd_file s i (fun f => mkFile (file_bytes f) [] (f_pos f))
       | None => s
       end
   | Close h =>
@@ -94,8 +112,14 @@ Definition run (ops : list fsop) (s : fs) : fs := foldl step s ops.
    volatile bytes do *)
 Record choice := mkChoice { ch_dir : nat; ch_bytes : nat -> nat }.
 
+(* the first [keep] bytes of a write sequence *)
+Fixpoint take_writes (keep : nat) (ws : list (nat * list N)) : list (nat * list N) :=
+  match ws with
+  | [] => []
+  | (o, b) :: r => if (keep <? length b)%nat then [(o, take keep b)] else (o, b) :: take_writes (keep - length b) r
+  end.
 Definition crash_file (keep : nat) (f : file) : file :=
-  mkFile (f_durable f ++ take keep (concat (f_volatile f))) [].
+  mkFile (apply_writes (f_durable f) (take_writes keep (f_volatile f))) [] 0.
 
 Definition crash (c : choice) (s : fs) : fs :=
   mkFs (imap (fun i f => crash_file (ch_bytes c i) f) (fs_files s))
@@ -107,11 +131,11 @@ Definition recover_after (ops : list fsop) (k : nat) (c : choice) (d0 : fs) : fs
 
 (* a quiescent file system in which name n holds exactly bytes b, everything on disk *)
 Definition holds_synced (s : fs) (n : string) (b : list N) : Prop :=
-  fs_log s = [] /\ exists i, fs_ddir s !! n = Some i /\ fs_files s !! i = Some (mkFile b []) /\
+  fs_log s = [] /\ exists i, fs_ddir s !! n = Some i /\ (exists p, fs_files s !! i = Some (mkFile b [] p)) /\
   forall h, handle (fs_open s) h <> Some i.
 (* ... or in which n does not exist *)
 Definition absent_synced (s : fs) (n : string) : Prop := fs_log s = [] /\ fs_ddir s !! n = None.
 
 (* executable builder for initial states (used by the correspondence run and the Examples) *)
-Definition fs_with (n : string) (b : list N) : fs := mkFs [mkFile b []] {[ n := 0%nat ]} [] [].
+Definition fs_with (n : string) (b : list N) : fs := mkFs [mkFile b [] 0] {[ n := 0%nat ]} [] [].
 Definition fs_empty : fs := mkFs [] ∅ [] [].
